@@ -27,6 +27,7 @@ class M:
     echo: Optional[str] = None  # echo semantics id
     tree_type: Optional[str] = None
     enum: Optional[str] = None  # num returning an enum (qualified python-side dotted name)
+    const_decl: bool = False  # vec: the declaration sent to the translator says const (const std::vector<T>[*]); the model returns the same object
 
     @property
     def typed(self):  # translator knows the type
@@ -278,7 +279,7 @@ def method_metadata(schema: Schema) -> List[dict]:
                 md["return_type"] = m.cls + "*" * m.ptr
             elif m.kind == "vec":
                 md["return_type_element"] = m.ctype
-                md["return_type_collection"] = f"std::vector<{m.ctype}>" + "*" * m.ptr
+                md["return_type_collection"] = ("const " if m.const_decl else "") + f"std::vector<{m.ctype}>" + "*" * m.ptr
             elif m.kind == "objvec":
                 md["return_type_element"] = m.cls + "*" * m.elem_ptr
                 md["return_type_collection"] = f"std::vector<{'const ' if m.elem_ptr else ''}{m.cls}{'*' * m.elem_ptr}>" + "*" * m.ptr
